@@ -82,6 +82,8 @@ pub fn run_case(case: &[u8]) -> String {
             18 => crate::settings::case_settings(&mut rd),
             20 => crate::query::case_quake(&mut rd),
             22 => crate::query::case_unreal2(&mut rd),
+            30 => crate::idcheck::case_idcheck(&mut rd),
+            31 => crate::idcheck::case_n2w(&mut rd),
             _ => Err(()),
         }
     }));
